@@ -1758,4 +1758,55 @@ example : ∃ out, arrayTriangleBuilder
   obtain ⟨out, h1, _, h3⟩ := arrayBuilder_fields _ _ hreg
   exact ⟨out, h1, h3⟩
 
+/-! ### any number of frames, `period_resolution` inferred -/
+
+/-- what inference of `period_resolution` needs of one frame: at least two rows, the first two period starts
+`res` months apart (the hypothesis of `fromArrayFrame_args_inferred`) -/
+def FrameSpec.Infers (res : Int) (s : FrameSpec) : Prop :=
+  ∃ r0 r1 rest, s.2.1 = r0 :: r1 :: rest ∧ monthToId r1.1 = monthToId r0.1 + res
+
+theorem builderFold_eq_inferred {md : Metadata} {res : Int} {evalRes : Option Int} {fe : Bool} :
+    ∀ (rest : List FrameSpec) (acc : List Cell), (∀ s ∈ rest, s.Reg md res evalRes fe ∧ s.Infers res) →
+    (rest.map fun s => (s.frame, s.2.2)).foldlM (fun acc p =>
+      (fromArrayFrameFull p.1 p.2 none evalRes fe md).bind fun t => merge (some .full) none acc t) acc =
+    (rest.map (FrameSpec.expected md res evalRes fe)).foldlM (fun acc t => merge (some .full) none acc t) acc
+  | [], _, _ => rfl
+  | s :: rest, acc, h => by
+    have hs : fromArrayFrameFull s.frame s.2.2 none evalRes fe md = .ok (s.expected md res evalRes fe) :=
+      fromArrayFrame_args_inferred (h s List.mem_cons_self).1 (h s List.mem_cons_self).2
+    rw [List.map_cons, List.foldlM_cons, List.map_cons, List.foldlM_cons]
+    simp only [hs, Except.bind]
+    cases hm : merge (some .full) none acc (s.expected md res evalRes fe) with
+    | error e => rfl
+    | ok o => exact builderFold_eq_inferred rest o (fun s' hs' => h s' (List.mem_cons_of_mem _ hs'))
+
+/-- **arrayBuilder_fields_inferred** (any number n ≥ 1 of frames, `period_resolution=None`): as
+`arrayBuilder_fields`, every single-frame reader inferring the resolution from its own first two period starts;
+per frame the hypotheses of `arrayBuilder_two_fields_inferred` (`RegFrame` for the common `res`, and
+`FrameSpec.Infers res`: ≥ 2 rows, first two period starts `res` months apart). The builder RETURNS `out`, reached
+by the chain of merges each satisfying `Spec.mergeSpec .full none`; `out` is a `CumTriangle`. -/
+theorem arrayBuilder_fields_inferred {md : Metadata} {res : Int} {evalRes : Option Int} {fe : Bool}
+    (s0 : FrameSpec) (rest : List FrameSpec)
+    (h : ∀ s ∈ s0 :: rest, s.Reg md res evalRes fe ∧ s.Infers res) :
+    ∃ out, arrayTriangleBuilder ((s0 :: rest).map FrameSpec.frame) ((s0 :: rest).map (·.2.2)) none evalRes fe md =
+        .ok out ∧
+      MergeChain (s0.expected md res evalRes fe) (rest.map (FrameSpec.expected md res evalRes fe)) out ∧
+      CumTriangle out := by
+  have hs0 : fromArrayFrameFull s0.frame s0.2.2 none evalRes fe md = .ok (s0.expected md res evalRes fe) :=
+    fromArrayFrame_args_inferred (h s0 List.mem_cons_self).1 (h s0 List.mem_cons_self).2
+  have heq : arrayTriangleBuilder ((s0 :: rest).map FrameSpec.frame) ((s0 :: rest).map (·.2.2)) none evalRes fe md =
+      (rest.map (FrameSpec.expected md res evalRes fe)).foldlM (fun acc t => merge (some .full) none acc t)
+        (s0.expected md res evalRes fe) := by
+    unfold arrayTriangleBuilder
+    have hz : (rest.map FrameSpec.frame).zip (rest.map (·.2.2)) = rest.map fun s => (s.frame, s.2.2) := by
+      rw [List.zip_map']
+    simp only [List.map_cons, List.length_cons, List.length_map, bne_self_eq_false, Bool.false_eq_true, if_false,
+      List.zip_cons_cons, hz, hs0, Except.bind]
+    exact builderFold_eq_inferred rest _ (fun s hs => h s (List.mem_cons_of_mem _ hs))
+  rw [heq]
+  exact foldlM_merge_chain _ _ (FrameSpec.expected_cumTriangle (h s0 List.mem_cons_self).1) (by
+    intro t ht
+    obtain ⟨s, hs, rfl⟩ := List.mem_map.mp ht
+    exact FrameSpec.expected_cumTriangle (h s (List.mem_cons_of_mem _ hs)).1)
+
 end Bermuda.Properties.C14
